@@ -200,6 +200,14 @@ def part_check(kind, case, rec):
     r = np.random.default_rng(case["vseed"])
     for f in fc.fields:
         f.values[...] = np.round(r.uniform(-1, 1, f.values.shape), 3)
+    if case["vseed"] % 3 == 0:
+        # the values of the fields in column-major memory order (e.g. assembled as np.array([ux, uy]).T): the global numbering is
+        # (field, point, component) whatever the layout
+        for f in fc.fields:
+            f.values = np.asfortranarray(f.values)
+        rec.label("fortran-ordered-field-values")
+    flat_model = np.concatenate([np.array([f.values[p_, c_] for p_ in range(f.values.shape[0]) for c_ in range(f.values.shape[1])]) for f in fc.fields])
+    rec.require("math.values=(field, point, component)-order", np.array_equal(np.asarray(fem.math.values(fc)).ravel(), flat_model))
     sizes = [f.values.size for f in fc.fields]
     offs = np.concatenate([[0], np.cumsum(sizes)])
     total = int(offs[-1])
